@@ -14,7 +14,7 @@ LEVEL = 'exploration'
 TECHNIQUE = ('Hypothesis-generated trace/label matrices with a menu of class balances (balanced, geometric, one trace per class, single class, empty declared '
              'classes) and column kinds (random, constant, constant within each class, two-valued), explicit and automatic class sets on both sides of the '
              '9/64/256 thresholds; oracle = one-way F / NICV / SNR evaluated from the definition in exact rational arithmetic (two-pass float64 for real data)')
-RULE = ('case = (metric in anova|nicv|snr, precision, regime, n in 2..200 traces, 2..6 samples, 1..4 words, class set explicit (1..64 values, with stride) or automatic '
+RULE = ('case = (metric in anova|nicv|snr, precision, regime, n in 2..200 traces, 2..6 samples, 1..4 words, class set explicit (13 lists of 1..64 values, some with offset/stride) or automatic '
         '(first-batch max in {0,1,7,8,9,10,62,63,64,65,200,254,255}), per-word class balance, per-sample column kind, 1-3 batches, forced kernel per batch); every (word, sample) '
         'cell is one oracle comparison. Non-trivial = some word has unequal class sizes or a declared class without traces; distinct = digest of the materialised case.')
 LEVEL_TEXT = ('Every (word, sample) cell of every generated instance is compared with the textbook definition (F with k-1 / n-k degrees of freedom over non-empty classes, '
@@ -30,6 +30,7 @@ ASSUMPTIONS = [
 ]
 
 METRICS = ('anova', 'nicv', 'snr')
+CLASS_LISTS = [(1, 0, 1), (2, 0, 1), (2, 5, 3), (3, 0, 1), (3, 1, 2), (4, 1, 2), (5, 0, 1), (8, 0, 1), (9, 0, 1), (9, 1, 1), (10, 0, 1), (16, 0, 2), (64, 0, 1)]
 AUTO_MAX = [0, 1, 7, 8, 9, 10, 62, 63, 64, 65, 200, 254, 255]
 
 
@@ -211,9 +212,8 @@ def cases(draw, precision, int_dtype, float_dtype):
         lab_classes = list(range(0, amax + 1))
         labels = draw_labels(draw, g, n, W, lab_classes, first_len, auto_max=amax)
     else:
-        k = draw(st.sampled_from([1, 2, 2, 3, 4, 5, 8, 9, 10, 16, 64]))
-        start = draw(st.sampled_from([0, 0, 1, 5]))
-        stride = draw(st.sampled_from([1, 1, 2, 3]))
+        # a fixed family of class lists: the per-list lookup function is compiled once per process (see vlib/dist.enable_lut_cache)
+        k, start, stride = draw(st.sampled_from(CLASS_LISTS))
         classes = [start + stride * i for i in range(k)]
         partitions = classes
         labels = draw_labels(draw, g, n, W, classes, first_len)
@@ -274,7 +274,7 @@ def units(tier):
     for gi, (idt, fdt) in enumerate(GROUPS):
         for precision in ('float32', 'float64'):
             us.append({'name': 'gen-%s-%s-%s' % (precision, idt, fdt), 'fn': 'unit_generated',
-                       'kwargs': {'precision': precision, 'int_dtype': idt, 'float_dtype': fdt, 'n': 60 if q else 700}})
+                       'kwargs': {'precision': precision, 'int_dtype': idt, 'float_dtype': fdt, 'n': 450 if q else 6000}})
     return us
 
 
